@@ -835,8 +835,8 @@ def extract_fn(repo, spec, features):
             e += 1
         edits.add(T[k].start, T[k].start, f'{GB}({spec["ret"]}: {GE}', 'ghost', 'ret name')
         edits.add(T[e - 1].end, T[e - 1].end, f'{GB}){GE}', 'ghost', 'ret name')
-    if spec['spec'].strip():
-        edits.add(T[bo].start, T[bo].start, f'\n{GB}\n{spec["spec"]}\n{GE}\n', 'ghost', 'spec')
+    # (an empty marker pair is emitted even without a contract: it anchors the vacuity canary)
+    edits.add(T[bo].start, T[bo].start, f'\n{GB}\n{spec["spec"]}\n{GE}\n', 'ghost', 'spec')
 
     # ---- E5: loops
     lps = [i for i in loops_in(sf, bo + 1, bc) if alive(T[i])]
